@@ -183,6 +183,54 @@ unsafe impl<const EXTRA: usize> Allocator for VA<EXTRA> {
     }
 }
 
+/// Verification allocator whose blocks start `OFF` bytes (a multiple of 16) into a maximally aligned heap object:
+/// CBMC places every object at `object_id << 48`, so without this variant a chunk start that is ONLY 16-aligned - and
+/// with it every alignment padding > 0 for over-aligned requests at the start of a chunk - would never be explored.
+#[derive(Clone, Copy, Default)]
+pub struct VAOff<const OFF: usize>;
+
+unsafe impl<const OFF: usize> Allocator for VAOff<OFF> {
+    fn allocate(&self, layout: Layout) -> Result<NonNull<[u8]>, AllocError> {
+        unsafe {
+            NCALLS += 1;
+            if BUDGET == 0 || layout.align() > 16 {
+                return Err(AllocError);
+            }
+            // object = OFF bytes of slack + the block; `raw_block` serves the concrete sizes
+            let p = raw_block::<OFF>(layout.size(), 64);
+            if p.is_null() {
+                return Err(AllocError);
+            }
+            BUDGET -= 1;
+            check!(NGRANTS < LOGN, "harness: more base-allocator grants than the log can hold");
+            let q = p.add(OFF);
+            LOG[NGRANTS] = Grant { addr: q as usize, requested: layout.size(), granted: layout.size(), align: layout.align(), live: true };
+            NGRANTS += 1;
+            Ok(NonNull::slice_from_raw_parts(NonNull::new_unchecked(q), layout.size()))
+        }
+    }
+    unsafe fn deallocate(&self, ptr: NonNull<u8>, layout: Layout) {
+        unsafe {
+            let addr = ptr.as_ptr() as usize;
+            let mut found = false;
+            let mut k = 0;
+            while k < LOGN {
+                if k < NGRANTS && LOG[k].addr == addr {
+                    found = true;
+                    check!(LOG[k].live, "C05: block released twice");
+                    check!(LOG[k].align == layout.align(), "C05: block released with a different alignment");
+                    check!(layout.size() == LOG[k].requested, "C05: block released with a size outside [requested, granted]");
+                    LOG[k].live = false;
+                    NRELEASED += 1;
+                    std::alloc::dealloc(ptr.as_ptr().sub(OFF), Layout::from_size_align_unchecked(LOG[k].granted + OFF, 64));
+                }
+                k += 1;
+            }
+            check!(found, "C05: released a pointer that was never granted");
+        }
+    }
+}
+
 /// Stateful verification allocator: 8 bytes of state => 48-byte chunk header. With MINIMUM_CHUNK_SIZE = 1 the first
 /// chunk is 48 bytes (the header alone, capacity 0), the next ones 112 and 240.
 #[derive(Clone, Copy, Default)]
